@@ -10,6 +10,7 @@ package server
 // property itself on (configuration, OPEN bytes, resulting fsm fields) without the model.
 
 import (
+	"bytes"
 	"context"
 	"encoding/binary"
 	"fmt"
@@ -989,6 +990,7 @@ func c08Case(o *vOut, r *vRand, c *c08Cfg, specs []*c08OpenSpec) {
 		o.ask(ticker, "ticker")
 		c08CheckSession(o, c, body, f, recvMax, ticker, opens)
 		c08Boundaries(o, r, c, rm, f, h, opens)
+		c08Consumption(o, c, rm, f, h, opens)
 
 		// coverage counters
 		fm := c08FamilyMap(f)
@@ -1086,6 +1088,7 @@ func TestVerifC08(t *testing.T) {
 
 		// corpus: minimised past findings, run first
 		c08Corpus(o, r)
+		c08ConsumptionMatrix(o, r)
 
 		n := 2500
 		if o.thorough {
@@ -1340,4 +1343,340 @@ func c08GateRefuses(h *fsmHandler, typ uint8, total int) bool {
 	me, ok := fmsg.MsgData.(*bgp.MessageError)
 	return ok && me.TypeCode == bgp.BGP_ERROR_MESSAGE_HEADER_ERROR && me.SubTypeCode == bgp.BGP_ERROR_SUB_BAD_MESSAGE_LENGTH &&
 		strings.Contains(me.Message, "too large")
+}
+
+// ---------------------------------------------------------------- the negotiated values where they are USED
+
+// c08Wire is a hand-written wire encoding of one route of a family (no gobgp code involved): the
+// NLRI octets WITHOUT path identifier, the next hop octets of MP_REACH_NLRI, and the same route as
+// a gobgp object for the send path.
+type c08Wire struct {
+	fam  bgp.Family
+	nlri []byte
+	nh   []byte
+	obj  bgp.NLRI
+	nhIP netip.Addr
+}
+
+func c08WireFor(fam bgp.Family) *c08Wire {
+	v4 := []byte{10, 99, 7}                   // 10.99.7.0/24
+	v6 := []byte{0x20, 0x01, 0x0d, 0xb8, 0, 7} // 2001:db8:7::/48
+	p4, p6 := netip.MustParsePrefix("10.99.7.0/24"), netip.MustParsePrefix("2001:db8:7::/48")
+	nh4, nh6 := netip.MustParseAddr("10.9.9.1"), netip.MustParseAddr("2001:db8::1")
+	label := []byte{0x00, 0x06, 0x41}              // label 100, bottom of stack
+	rd := []byte{0, 0, 0, 100, 0, 0, 0, 1}         // type 0, 100:1
+	rdObj := bgp.NewRouteDistinguisherTwoOctetAS(100, 1)
+	cat := func(parts ...[]byte) []byte { return bytes.Join(parts, nil) }
+	w := &c08Wire{fam: fam}
+	switch fam {
+	case bgp.RF_IPv4_UC, bgp.RF_IPv4_MC:
+		w.nlri, w.nh, w.nhIP = cat([]byte{24}, v4), nh4.AsSlice(), nh4
+		w.obj, _ = bgp.NewIPAddrPrefix(p4)
+	case bgp.RF_IPv6_UC:
+		w.nlri, w.nh, w.nhIP = cat([]byte{48}, v6), nh6.AsSlice(), nh6
+		w.obj, _ = bgp.NewIPAddrPrefix(p6)
+	case bgp.RF_IPv4_MPLS:
+		w.nlri, w.nh, w.nhIP = cat([]byte{24 + 24}, label, v4), nh4.AsSlice(), nh4
+		w.obj, _ = bgp.NewLabeledIPAddrPrefix(p4, *bgp.NewMPLSLabelStack(100))
+	case bgp.RF_IPv4_VPN:
+		w.nlri, w.nh, w.nhIP = cat([]byte{24 + 64 + 24}, label, rd, v4), cat(make([]byte, 8), nh4.AsSlice()), nh4
+		w.obj, _ = bgp.NewLabeledVPNIPAddrPrefix(p4, *bgp.NewMPLSLabelStack(100), rdObj)
+	case bgp.RF_IPv6_VPN:
+		w.nlri, w.nh, w.nhIP = cat([]byte{24 + 64 + 48}, label, rd, v6), cat(make([]byte, 8), nh6.AsSlice()), nh6
+		w.obj, _ = bgp.NewLabeledVPNIPAddrPrefix(p6, *bgp.NewMPLSLabelStack(100), rdObj)
+	case bgp.RF_EVPN: // route type 3 (inclusive multicast ethernet tag)
+		w.nlri, w.nh, w.nhIP = cat([]byte{3, 17}, rd, []byte{0, 0, 0, 0, 32}, nh4.AsSlice()), nh4.AsSlice(), nh4
+		w.obj, _ = bgp.NewEVPNMulticastEthernetTagRoute(rdObj, 0, nh4)
+	default:
+		return nil
+	}
+	return w
+}
+
+func c08Attr(flags, typ uint8, val []byte) []byte {
+	if len(val) > 255 {
+		return append([]byte{flags | 0x10, typ, byte(len(val) >> 8), byte(len(val))}, val...)
+	}
+	return append([]byte{flags, typ, byte(len(val))}, val...)
+}
+
+// c08PeerUpdate: the octets a peer puts on the wire for announcing (or withdrawing) the route, with
+// or without a path identifier, AS numbers `asWidth` octets wide.
+func (w *c08Wire) peerUpdate(withdraw, withID bool, pathID uint32, as uint32, asWidth int) []byte {
+	n := w.nlri
+	if withID {
+		n = append(binary.BigEndian.AppendUint32(nil, pathID), n...)
+	}
+	withdrawn, attrs, nlri := []byte{}, []byte{}, []byte{}
+	afi := binary.BigEndian.AppendUint16(nil, w.fam.Afi())
+	if withdraw {
+		if w.fam == bgp.RF_IPv4_UC {
+			withdrawn = n
+		} else {
+			attrs = c08Attr(0x80, 15, bytes.Join([][]byte{afi, {w.fam.Safi()}, n}, nil))
+		}
+	} else {
+		seg := []byte{2, 1}
+		if asWidth == 4 {
+			seg = binary.BigEndian.AppendUint32(seg, as)
+		} else {
+			seg = binary.BigEndian.AppendUint16(seg, uint16(as))
+		}
+		attrs = append(attrs, c08Attr(0x40, 1, []byte{0})...)
+		attrs = append(attrs, c08Attr(0x40, 2, seg)...)
+		if w.fam == bgp.RF_IPv4_UC {
+			attrs = append(attrs, c08Attr(0x40, 3, w.nh)...)
+			nlri = n
+		} else {
+			attrs = append(attrs, c08Attr(0x80, 14, bytes.Join([][]byte{afi, {w.fam.Safi(), byte(len(w.nh))}, w.nh, {0}, n}, nil))...)
+		}
+	}
+	body := binary.BigEndian.AppendUint16(nil, uint16(len(withdrawn)))
+	body = append(body, withdrawn...)
+	body = binary.BigEndian.AppendUint16(body, uint16(len(attrs)))
+	body = append(body, attrs...)
+	body = append(body, nlri...)
+	msg := bytes.Repeat([]byte{0xff}, 16)
+	msg = binary.BigEndian.AppendUint16(msg, uint16(19+len(body)))
+	msg = append(msg, bgp.BGP_MSG_UPDATE)
+	return append(msg, body...)
+}
+
+// c08Received: what the real receive path (recvMessageWithError with the fsm's options) makes of the
+// octets: the routes announced / withdrawn as (path id, NLRI octets) and the AS numbers of AS_PATH.
+func c08Received(h *fsmHandler, raw []byte) (routes []string, ases []uint32, ok bool) {
+	h.fsm.conn = &c08Conn{rd: &c08Bytes{b: raw}}
+	fmsg, err := h.recvMessageWithError(h.fsm.conn, make(chan fsmStateReason, 4))
+	if err != nil || fmsg == nil || fmsg.handling != bgp.ERROR_HANDLING_NONE {
+		return nil, nil, false
+	}
+	m, isMsg := fmsg.MsgData.(*bgp.BGPMessage)
+	if !isMsg || m.Header.Type != bgp.BGP_MSG_UPDATE {
+		return nil, nil, false
+	}
+	up := m.Body.(*bgp.BGPUpdate)
+	add := func(kind string, l []bgp.PathNLRI) {
+		for _, p := range l {
+			b, _ := p.NLRI.Serialize()
+			routes = append(routes, fmt.Sprintf("%s %d %x", kind, p.ID, b))
+		}
+	}
+	add("w", up.WithdrawnRoutes)
+	add("a", up.NLRI)
+	for _, a := range up.PathAttributes {
+		switch p := a.(type) {
+		case *bgp.PathAttributeMpReachNLRI:
+			add("a", p.Value)
+		case *bgp.PathAttributeMpUnreachNLRI:
+			add("w", p.Value)
+		case *bgp.PathAttributeAsPath:
+			for _, seg := range p.Value {
+				ases = append(ases, seg.GetAS()...)
+			}
+		}
+	}
+	return routes, ases, true
+}
+
+// c08SentNLRI: run the real sendMessageloop with one path and cut the NLRI octets (and the AS_PATH /
+// AS4_PATH attribute values) out of the UPDATE it writes, by walking the wire format by hand.
+func c08SentNLRI(h *fsmHandler, p *table.Path, fam bgp.Family, withdraw bool) (nlri []byte, asPath []byte, as4Path bool, ok bool) {
+	rec := &c08RecConn{}
+	ctx, cancel := context.WithCancel(context.Background())
+	wg := &sync.WaitGroup{}
+	wg.Add(1)
+	go h.sendMessageloop(ctx, rec, make(chan fsmStateReason, 3), wg)
+	h.outgoing.In() <- &fsmOutgoingMsg{Paths: []*table.Path{p}}
+	synctest.Wait()
+	cancel()
+	wg.Wait()
+	for _, w := range rec.writes {
+		if len(w) < 23 || w[18] != bgp.BGP_MSG_UPDATE {
+			continue
+		}
+		body := w[19:]
+		wl := int(binary.BigEndian.Uint16(body[0:2]))
+		if 2+wl+2 > len(body) {
+			return nil, nil, false, false
+		}
+		withdrawn := body[2 : 2+wl]
+		al := int(binary.BigEndian.Uint16(body[2+wl : 4+wl]))
+		if 4+wl+al > len(body) {
+			return nil, nil, false, false
+		}
+		attrs, tail := body[4+wl:4+wl+al], body[4+wl+al:]
+		if fam == bgp.RF_IPv4_UC {
+			nlri = tail
+			if withdraw {
+				nlri = withdrawn
+			}
+		}
+		for len(attrs) >= 3 {
+			flags, typ := attrs[0], attrs[1]
+			hl, vl := 3, int(attrs[2])
+			if flags&0x10 != 0 {
+				if len(attrs) < 4 {
+					return nil, nil, false, false
+				}
+				hl, vl = 4, int(binary.BigEndian.Uint16(attrs[2:4]))
+			}
+			if hl+vl > len(attrs) {
+				return nil, nil, false, false
+			}
+			val := attrs[hl : hl+vl]
+			switch typ {
+			case 2:
+				asPath = val
+			case 17:
+				as4Path = true
+			case 14:
+				if !withdraw && len(val) >= 5 && 4+int(val[3])+1 <= len(val) {
+					nlri = val[4+int(val[3])+1:]
+				}
+			case 15:
+				if withdraw && len(val) >= 3 {
+					nlri = val[3:]
+				}
+			}
+			attrs = attrs[hl+vl:]
+		}
+		return nlri, asPath, as4Path, true
+	}
+	return nil, nil, false, false
+}
+
+// c08Consumption: the negotiated values judged where they are USED.  For every family active on the
+// session (whatever ADD-PATH mode came out: none / receive / send / both) an announcement and a
+// withdrawal, hand-encoded with and without path identifiers and with 2- or 4-octet AS numbers, go
+// through the real receive path, and a route of the family goes through the real send path.
+// Judged without the model: exactly the encoding the PROPERTY prescribes (path identifiers iff the
+// complementary direction was announced by the peer and configured here; 4-octet AS numbers iff the
+// peer announced the capability) decodes to the route that was sent, and is what is emitted.
+func c08Consumption(o *vOut, c *c08Cfg, rm *c08Remote, f *fsm, h *fsmHandler, opens []string) {
+	bad := func(class, what string) { o.fail(class, c08Detail(c, opens, what)) }
+	local := map[bgp.Family]c08Af{}
+	for _, a := range c.afs {
+		local[a.fam] = a
+	}
+	dupLocal := len(local) != len(c.afs)
+	fams := []bgp.Family{}
+	for fam := range c08FamilyMap(f) {
+		fams = append(fams, fam)
+	}
+	slices.Sort(fams)
+	asWidth, as := 2, uint32(65010)
+	if rm.as4 {
+		asWidth, as = 4, 70000
+	}
+	tri := func(yes, no bool) string {
+		switch {
+		case yes && !no:
+			return "1"
+		case no && !yes:
+			return "0"
+		}
+		return "x"
+	}
+	for _, fam := range fams {
+		w := c08WireFor(fam)
+		if w == nil {
+			o.stat("consumption_family_not_hand_encoded", 1)
+			continue
+		}
+		if b, _ := w.obj.Serialize(); !bytes.Equal(b, w.nlri) {
+			o.t.Fatalf("hand encoding of family %v differs from the object's: %x vs %x", fam, w.nlri, b)
+		}
+		// receive: which of the two encodings decodes to the route that was sent
+		good := func(withdraw, withID bool) bool {
+			routes, ases, ok := c08Received(h, w.peerUpdate(withdraw, withID, 77, as, asWidth))
+			id, kind := 0, "a"
+			if withID {
+				id = 77
+			}
+			if withdraw {
+				kind = "w"
+			}
+			if !ok || len(routes) != 1 || routes[0] != fmt.Sprintf("%s %d %x", kind, id, w.nlri) {
+				return false
+			}
+			return withdraw || (len(ases) == 1 && ases[0] == as)
+		}
+		recvA, recvW := tri(good(false, true), good(false, false)), tri(good(true, true), good(true, false))
+		recv := recvA
+		if recvA != recvW {
+			recv = "x"
+		}
+		// send: what the real sendMessageloop writes for a route / a withdrawal of the family
+		attrs := []bgp.PathAttributeInterface{bgp.NewPathAttributeOrigin(0),
+			bgp.NewPathAttributeAsPath([]bgp.AsPathParamInterface{bgp.NewAs4PathParam(2, []uint32{70000})})}
+		if fam == bgp.RF_IPv4_UC {
+			nh, _ := bgp.NewPathAttributeNextHop(w.nhIP)
+			attrs = append(attrs, nh)
+		} else {
+			mp, _ := bgp.NewPathAttributeMpReachNLRI(fam, []bgp.PathNLRI{{NLRI: w.obj}}, w.nhIP)
+			attrs = append(attrs, mp)
+		}
+		sentID := func(withdraw bool) (string, []byte, bool) {
+			p := table.NewPath(fam, nil, bgp.PathNLRI{NLRI: w.obj}, withdraw, attrs, time.Now(), false)
+			n, asp, as4p, ok := c08SentNLRI(h, p, fam, withdraw)
+			if !ok {
+				return "x", nil, false
+			}
+			return tri(len(n) == 4+len(w.nlri) && bytes.Equal(n[4:], w.nlri), bytes.Equal(n, w.nlri)), asp, as4p
+		}
+		sendA, asp, as4p := sentID(false)
+		sendW, _, _ := sentID(true)
+		send := sendA
+		if sendA != sendW {
+			send = "x"
+		}
+		as4wire := tri(bytes.Equal(asp, []byte{2, 1, 0, 1, 0x11, 0x70}) && !as4p, bytes.Equal(asp, []byte{2, 1, 0x5b, 0xa0}) && as4p)
+		o.ask(fmt.Sprintf("recv %s send %s as4 %s", recv, send, as4wire), "apuse %d", uint32(fam))
+		o.stat(fmt.Sprintf("consumption_mode_%d", c08FamilyMap(f)[fam]), 1)
+		o.stat(fmt.Sprintf("consumption_family_%d", uint32(fam)), 1)
+
+		if as4wire != fmt.Sprint(c08B(rm.as4)) {
+			bad("as4-not-consumed-on-send", fmt.Sprintf("family %d: AS_PATH on the wire %x AS4_PATH %v, peer announced 4-octet AS %v", uint32(fam), asp, as4p, rm.as4))
+		}
+		if dupLocal || rm.apConfl[fam] {
+			continue
+		}
+		a := local[fam]
+		wantRecv := a.recv && rm.apAny[fam]&2 != 0
+		wantSend := a.sendMax > 0 && rm.apAny[fam]&1 != 0
+		if recvA == "x" && recvW == fmt.Sprint(c08B(wantRecv)) {
+			// the withdrawal (no AS_PATH) is read correctly, the announcement in neither form: the AS width
+			bad("as4-not-consumed-on-receive", fmt.Sprintf("family %d: an announcement with %d-octet AS numbers (peer announced 4-octet AS: %v) does not decode to the route and AS sent", uint32(fam), asWidth, rm.as4))
+		} else if recv != fmt.Sprint(c08B(wantRecv)) {
+			bad("addpath-not-consumed-on-receive", fmt.Sprintf("family %d, negotiated mode %d: received NLRI decode correctly with path identifiers: announce %s withdraw %s (1 = only with, 0 = only without, x = neither/both); the session must expect them: %v",
+				uint32(fam), c08FamilyMap(f)[fam], recvA, recvW, wantRecv))
+		}
+		if send != fmt.Sprint(c08B(wantSend)) {
+			bad("addpath-not-consumed-on-send", fmt.Sprintf("family %d, negotiated mode %d: sent NLRI carry path identifiers: announce %s withdraw %s; the session must write them: %v",
+				uint32(fam), c08FamilyMap(f)[fam], sendA, sendW, wantSend))
+		}
+	}
+}
+
+// c08ConsumptionMatrix: every hand-encoded family x every negotiated ADD-PATH mode, by construction
+// (local mode x remote mode, 16 combinations each), with and without the 4-octet AS capability.
+func c08ConsumptionMatrix(o *vOut, r *vRand) {
+	fams := []bgp.Family{bgp.RF_IPv4_UC, bgp.RF_IPv6_UC, bgp.RF_IPv4_MC, bgp.RF_IPv4_MPLS, bgp.RF_IPv4_VPN, bgp.RF_IPv6_VPN, bgp.RF_EVPN}
+	for _, fam := range fams {
+		for lm := 0; lm < 4; lm++ {
+			for rmode := 0; rmode < 4; rmode++ {
+				c := &c08Cfg{localAs: 65001, peerAs: 65002, routerID: 0x0a000001, hold: 90, ka3: 90,
+					afs: []c08Af{{fam: fam, recv: lm&1 != 0, sendMax: uint8(lm & 2)}}}
+				caps := []bgp.ParameterCapabilityInterface{bgp.NewCapMultiProtocol(fam)}
+				if rmode != 0 {
+					caps = append(caps, bgp.NewCapAddPath([]*bgp.CapAddPathTuple{bgp.NewCapAddPathTuple(fam, bgp.BGPAddPathMode(rmode))}))
+				}
+				if (lm+rmode)%2 == 0 {
+					caps = append(caps, bgp.NewCapFourOctetASNumber(65002))
+				}
+				c08Case(o, r, c, []*c08OpenSpec{{version: 4, myAS: 65002, hold: 90, id: 0x0a000002,
+					params: []bgp.OptionParameterInterface{bgp.NewOptionParameterCapability(caps)}}})
+			}
+		}
+	}
 }
